@@ -333,7 +333,7 @@ impl Sys for UndoSys {
 pub fn run(opts: &Opts) -> i32 {
     let rep = Report::new("C07", "model_checking", opts);
     rep.set("exhaustive", true);
-    rep.set("rule", "histories over {commit one valid change made with the real TaskData API, with or without a leading undo point; undo = get_undo_operations + commit_reversed_operations; stale undo (fetch, commit something, reverse the stale list); fetch + sync + reverse; sync} from an empty and from a populated synced replica, on the in-memory and the SQLite storage; oracle: harness-kept image of the task set at every undo point, exact unsynchronized list, result flags, and the versions a harness server receives at the next sync = documented conversion of the remaining operations; non-trivial = states with an undo point followed by changes");
+    rep.set("rule", "histories over {commit one valid change made with the real TaskData API, with or without a leading undo point; undo = get_undo_operations + commit_reversed_operations; stale undo (fetch, commit something, reverse the stale list); fetch + sync + reverse; sync} from an empty and from a populated synced replica, on the in-memory and the SQLite storage; plus one undo span of 1200 (thorough 6000) operations over two commits on both storages; oracle: harness-kept image of the task set at every undo point, exact unsynchronized list, result flags, and the versions a harness server receives at the next sync = documented conversion of the remaining operations; non-trivial = states with an undo point followed by changes");
     rep.assume("the lone-UndoPoint edge (fetched list is just an undo point) is outside the statement's 'sequence of changes' and not asserted");
     let q = opts.tier == Tier::Quick;
     let spaces: Vec<(&str, UndoSys, usize)> = vec![
@@ -373,7 +373,67 @@ pub fn run(opts: &Opts) -> i32 {
             ));
         }
     }
+    // one very large undo span: an undo point followed by 1200 (thorough 6000) changes in one
+    // commit and a few more in a second one, preceded by an older span that must survive
+    for kind in [Kind::Mem, Kind::Sqlite] {
+        let n = if q { 1200 } else { 6000 };
+        match large_span(kind, n) {
+            Ok(()) => rep.add("large_spans_undone", 1),
+            Err(e) => rep.violation(Violation::new(format!("{}:large-span:{kind:?}", e.split(':').next().unwrap_or("")), e, json!({"kind": "c07-large-span", "storage": kind, "n": n}))),
+        }
+    }
+    println!("[C07] large undo spans undone and compared ({:.1}s)", rep.elapsed());
     rep.finish()
+}
+
+/// An older span (kept), then UndoPoint + n updates in one commit + 3 changes in another; undo
+/// must hand out exactly the younger span, remove it, and restore the task set of the undo point.
+fn large_span(kind: Kind, n: usize) -> Result<(), String> {
+    use crate::world::replicas::{tid, with_replica};
+    let mut st = Store::fresh(kind);
+    let ts = super::syncworld::ts(3);
+    let upd = |t: u8, p: &str, old: Option<&str>, v: Option<&str>| Operation::Update { uuid: tid(t), property: p.into(), old_value: old.map(|s| s.to_string()), value: v.map(|s| s.to_string()), timestamp: ts };
+    let older = vec![Operation::UndoPoint, Operation::Create { uuid: tid(1) }, upd(1, "p", None, Some("kept"))];
+    let mut young = vec![Operation::UndoPoint, Operation::Create { uuid: tid(2) }];
+    let mut prev: Option<String> = None;
+    for i in 0..n {
+        let v = format!("v{i}");
+        young.push(upd(2, "q", prev.as_deref(), Some(&v)));
+        prev = Some(v);
+    }
+    let tail = vec![upd(1, "p", Some("kept"), Some("changed")), upd(1, "r", None, Some("x")), Operation::Delete { uuid: tid(2), old_task: [("q".to_string(), prev.clone().unwrap())].into_iter().collect() }];
+    let (o1, o2, o3) = (older.clone(), young.clone(), tail.clone());
+    crate::util::block_on(with_replica(&mut st, crate::world::proxy::Ctl::new(), async |r| {
+        r.commit_operations(o1).await.map_err(|e| format!("commit-failed: {e:#}"))?;
+        r.commit_operations(o2).await.map_err(|e| format!("commit-failed: {e:#}"))?;
+        r.commit_operations(o3).await.map_err(|e| format!("commit-failed: {e:#}"))
+    }))?;
+    let before = obs(&mut st);
+    let want_ops: Vec<Operation> = young.iter().chain(tail.iter()).cloned().collect();
+    if before.unsynced.len() != older.len() + want_ops.len() {
+        return Err(format!("oplog: {} operations stored, {} committed", before.unsynced.len(), older.len() + want_ops.len()));
+    }
+    let (got, ok) = crate::util::block_on(with_replica(&mut st, crate::world::proxy::Ctl::new(), async |r| {
+        let got = r.get_undo_operations().await.map_err(|e| format!("undo-failed: {e:#}"))?;
+        let ok = r.commit_reversed_operations(got.clone()).await.map_err(|e| format!("undo-failed: {e:#}"))?;
+        Ok::<_, String>((got, ok))
+    }))?;
+    if got != want_ops {
+        return Err(format!("undo-list: get_undo_operations returned {} operations, the span since the last undo point has {} (or their order differs)", got.len(), want_ops.len()));
+    }
+    if !ok {
+        return Err("undo-refused: commit_reversed_operations returned false for the list just fetched".into());
+    }
+    st.reopen();
+    let after = obs(&mut st);
+    if after.unsynced != older {
+        return Err(format!("undo-oplog: after undoing a span of {} operations the unsynchronized list has {} operations, the older span has {}", want_ops.len(), after.unsynced.len(), older.len()));
+    }
+    let want_tasks: Tasks = [(tid(1), [("p".to_string(), "kept".to_string())].into_iter().collect())].into_iter().collect();
+    if after.tasks != want_tasks {
+        return Err(format!("undo-state: after the undo the tasks are {} but at the undo point they were {}", crate::world::replicas::tasks_str(&after.tasks), crate::world::replicas::tasks_str(&want_tasks)));
+    }
+    Ok(())
 }
 
 pub fn replay_trace(sys: &UndoSys, tr: &[Act], verbose: bool) -> Result<(), String> {
